@@ -140,6 +140,8 @@ class Report:
         os.makedirs(os.path.join(VERIF, "replay"), exist_ok=True)
         viol, known, undec, crash = [], [], [], []
         canary_bad = []
+        nd = [o for o in obs if o["kind"] == "nd"]
+        obs = [o for o in obs if o["kind"] != "nd"]
         for o in obs:
             if o["kind"] == "canary":
                 # a canary must be refuted; anything else means the contract is vacuous / engine unsound
@@ -199,6 +201,7 @@ class Report:
             extraction_drops=self.dropped,
             known_findings=[dict(obligation=o["name"], witness_class=o.get("witness_class", "")) for o in known],
             undecided=[o["name"] for o in undec], crashed=[o["name"] for o in crash],
+            not_decided=[dict(obligation=o["name"], reason=(o["detail"] or "")[:300]) for o in nd],
             all_obligations=[dict(n=o["name"], k=o["kind"], s=o["status"], b=o["backend"], t=o["wall"]) for o in real],
         )
         cov.update(self.extra)
@@ -211,6 +214,8 @@ class Report:
               f"known={len(known)} refuted={len(viol)} undecided={len(undec)} crash={len(crash)} wall={wall:.1f}s")
         for l in lines:
             print(l)
+        for o in nd:
+            print(f"NOT-DECIDED {o['name']}: {(o['detail'] or '')[:200]}")
         for o in undec:
             print(f"UNDECIDED {o['name']}: {(o['detail'] or '')[:400]}")
         for o in crash:
